@@ -210,6 +210,8 @@ class Model:
     self.serial = 0
     self.slot_serial = []      # slot -> serial | None
     self.last_root_hit = None  # did the last root-level cached lookup hit?
+    self.insertions = 0        # every insertion into the LazyFn cache gets a number
+    self.generation = {}       # structural key -> number of its latest insertion
 
   # -- object cache ------------------------------------------------------------
   def obj_insert(self, value):
@@ -263,6 +265,8 @@ class Model:
         v = RefTok(self.obj_insert(v))
       if cached:
         self.fn.put(key, v)
+        self.insertions += 1
+        self.generation[key] = self.insertions
       return v
     if t == 'attr':
       pending = []
